@@ -45,6 +45,8 @@ def run(ctx):
             raise vlib.Inconclusive("cache history shard %d did not finish:\n%s" % (s, out[-1500:]))
         total += summ[0]["cases"]
         bad += summ[0]["bad"]
+        if summ[0].get("env"):
+            raise vlib.Inconclusive("%d histories hit an environment failure (descriptor/port exhaustion, overload)" % summ[0]["env"])
         for x in res:
             if x.get("summary"):
                 continue
